@@ -20,6 +20,8 @@ pub use kvs::{KeyValueStore, WriteBatch};
 pub use kvs::VerifState;
 #[cfg(blue_verif)]
 pub use tree::{VerifCompaction, VersionRef, verif_set_point_hook};
+#[cfg(blue_verif)]
+pub use tree::{VerifParked, verif_select};
 pub use tree::{CompactionID, LsmTree, NUM_LEVELS};
 pub use verifier::{LsmVerifier, ManifestVerifier};
 
